@@ -8,6 +8,23 @@ _NOTE = ('trusted base: the simulator itself (SimLoop, SimKernel, fake ZeroMQ) '
 _TECH = 'deterministic simulation with fault injection'
 
 META = {
+    'C11': {
+        'level': 'exploration',
+        'text': 'seeded sequences of requests, each corrupted in a known way '
+                '(invalid JSON, unknown command/watcher, missing or ill-typed '
+                'property, invalid option key/type/unusable value with the '
+                'bad option at every position of multi-option set/add '
+                'requests, bad signal, duplicate name in any case, singleton '
+                'numprocesses, endpoint-owner mismatch, conflict with an '
+                'operation in flight) against daemons with stopped and active '
+                'watchers; for every synchronous error reply the snapshot '
+                'taken before the dispatch must equal the one taken after '
+                '(directory, options, env, hooks, statuses, pids, kernel '
+                'spawn/signal logs, published events, loop queues)',
+        'note': _NOTE + '; the snapshot reads Arbiter/Watcher attributes '
+                '(white-box)',
+        'technique': _TECH + ' (before/after state snapshots around every '
+                     'refused dispatch)'},
     'C13': {
         'level': 'exploration',
         'text': 'seeded watcher configurations whose cmd/args come from a '
